@@ -60,6 +60,50 @@ def call_summary(qname, args):
     return None
 
 
+def call_closure(F, clo, args, depth):
+    """apply a closure value ('closure', body id, captured values) to argument values"""
+    if clo[0] != 'closure' or clo[1] not in F.bodies or depth > 4:
+        raise Undecided('call of a non-closure value')
+    return evaluate(F, F.bodies[clo[1]], [('tuple', clo[2])] + list(args), depth + 1)
+
+
+def closure_summary(F, q, a, depth):
+    """Option / Result combinators that take a closure."""
+    def truth(v):
+        if v[0] != 'bool':
+            raise Undecided('closure did not return a bool')
+        return v[1]
+    if q == 'std::option::Option::is_some_and':
+        return ('bool', a[0][1] is not None and truth(call_closure(F, a[1], [a[0][1]], depth)))
+    if q == 'std::option::Option::is_none_or':
+        return ('bool', a[0][1] is None or truth(call_closure(F, a[1], [a[0][1]], depth)))
+    if q == 'std::option::Option::map':
+        return ('opt', None if a[0][1] is None else call_closure(F, a[1], [a[0][1]], depth))
+    if q == 'std::option::Option::filter':
+        return ('opt', a[0][1] if a[0][1] is not None and truth(call_closure(F, a[1], [a[0][1]], depth)) else None)
+    if q == 'std::option::Option::and_then':
+        return ('opt', None) if a[0][1] is None else call_closure(F, a[1], [a[0][1]], depth)
+    if q == 'std::option::Option::map_or':
+        return a[1] if a[0][1] is None else call_closure(F, a[2], [a[0][1]], depth)
+    if q == 'std::option::Option::unwrap_or':
+        return a[1] if a[0][1] is None else a[0][1]
+    if q == 'std::result::Result::is_ok_and':
+        return ('bool', a[0][1] == 'Ok' and truth(call_closure(F, a[1], [a[0][2]], depth)))
+    if q == 'std::result::Result::is_err_and':
+        return ('bool', a[0][1] == 'Err' and truth(call_closure(F, a[1], [a[0][2]], depth)))
+    if q == 'std::result::Result::map':
+        return a[0] if a[0][1] == 'Err' else ('res', 'Ok', call_closure(F, a[1], [a[0][2]], depth))
+    if q == 'std::result::Result::map_err':
+        return a[0] if a[0][1] == 'Ok' else ('res', 'Err', call_closure(F, a[1], [a[0][2]], depth))
+    if q in ('core::bool::then', 'core::bool::then_some'):
+        if a[0][0] != 'bool':
+            raise Undecided('then on non-bool')
+        if q.endswith('then_some'):
+            return ('opt', a[1] if a[0][1] else None)
+        return ('opt', call_closure(F, a[1], [], depth) if a[0][1] else None)
+    return None
+
+
 def evaluate(F, body, args, depth=0, steps=400):
     """args: list of values for _1.._n. Returns the value of _0."""
     env = {}
@@ -199,6 +243,8 @@ def evaluate(F, body, args, depth=0, steps=400):
                 raise Undecided('diverging call ' + call.qname)
             argv = [op_val(a) for a in call.args]
             res = call_summary(call.qname, argv)
+            if res is None:
+                res = closure_summary(F, call.qname, argv, depth)
             if res is None:
                 cb = F.callee_body(call)
                 if cb is not None and depth < 4:
